@@ -56,7 +56,7 @@ claim(
 )
 
 ALL = [f"C{n:02d}" for n in range(1, 21)]
-READY = set(os.environ.get("VERIF_READY", "C19").split(","))
+READY = {"C08", "C12", "C19"}  # checks that are built, pass on the unchanged tree and are registered
 
 
 def main():
